@@ -350,6 +350,21 @@ func matchCorpus() []*matchCase {
 		lit(`{"b":"?x"}`, `{"b":"?y"}`, `{"?x":"?y","?y":"?x"}`),
 		lit(`{"b":["?x"]}`, `{"b":["?x",2]}`, `{"?x":"?x"}`),
 	)
+	// planted assignments with an optional variable beside structured elements (C02_match_complete_optional)
+	plant := func(p, f, sg string) *matchCase {
+		c := lit(p, f, `{}`)
+		c.Kind = "corpus-planted-optional"
+		must(json.Unmarshal([]byte(sg), &c.Planted))
+		return c
+	}
+	acc = append(acc,
+		plant(`[{"a":"?y"},"??o"]`, `[{"a":"b","c":"a"}]`, `{"?y":"b"}`),
+		plant(`["a",{"a":"?y"},"??o"]`, `[{"a":"b"},"a"]`, `{"?y":"b"}`),
+		plant(`{"k":[["?y"],"??o"],"n":1}`, `{"k":[["x"]],"n":1,"m":2}`, `{"?y":"x"}`),
+		plant(`[{"a":"?y"},"??o"]`, `[{"a":"b"},"c"]`, `{"?y":"b","??o":"c"}`),
+		plant(`{"a":{"b":"?y"},"o":"??o"}`, `{"a":{"b":1,"c":2}}`, `{"?y":1}`),
+		plant(`{"a":{"b":"?y"},"o":"??o"}`, `{"a":{"b":1,"c":2},"o":[1]}`, `{"?y":1,"??o":[1]}`),
+	)
 	return acc
 }
 
@@ -463,7 +478,10 @@ func matchComponent(g *G, n int, opts map[string]string) *Out {
 		case "c02":
 			// mostly planted
 			if k >= 12 {
-				k = 55 + k%30
+				k = 55 + k%33
+				if g.chance(0.2) {
+					k = 86
+				}
 			}
 		}
 		switch {
@@ -510,6 +528,11 @@ func matchComponent(g *G, n int, opts map[string]string) *Out {
 					c.Planted[k] = v
 				}
 			}
+		case k < 88 && (opts["mode"] == "c02" || k >= 85):
+			// planted assignment with an optional variable (C02_match_complete_optional): the variable of
+			// an array whose other elements use up the whole message array (left unassigned) or leave
+			// one element over (assigned to it), or an object value whose key is missing / present
+			g.plantedOptional(c)
 		case k < 93:
 			// unrelated pattern and message
 			ctx := newPctx()
@@ -759,4 +782,83 @@ func matchEnumComponent(g *G, n int, opts map[string]string) *Out {
 		o.count("exhaustive")
 	}
 	return o
+}
+
+
+// plantedOptional builds a pattern with one optional variable and a message in which the planted
+// assignment is an embedding in the sense of Spec/EmbedOpt.v.
+func (g *G) plantedOptional(c *matchCase) {
+	ctx := newPctx()
+	ctx.plainOnly, ctx.linear = true, true
+	sigma := map[string]interface{}{}
+	sub := func() interface{} {
+		for {
+			p := g.pattern(2, ctx)
+			if s, is := p.(string); is && len(s) > 0 && s[0] == '?' {
+				continue
+			}
+			return p
+		}
+	}
+	opt := "??o"
+	var p, f interface{}
+	assigned := g.chance(0.5)
+	if g.chance(0.65) {
+		var pa, fa []interface{}
+		for n := g.intn(4); n > 0; n-- {
+			e := sub()
+			pa = append(pa, e)
+			fa = append(fa, g.instantiate(e, sigma, ctx, true))
+		}
+		pa = append(pa, opt)
+		if assigned {
+			x := g.scalar()
+			if g.chance(0.3) {
+				x = g.value(2)
+			}
+			sigma[opt] = x
+			fa = append(fa, x)
+		}
+		g.r.Shuffle(len(fa), func(i, j int) { fa[i], fa[j] = fa[j], fa[i] })
+		if g.chance(0.5) {
+			g.r.Shuffle(len(pa), func(i, j int) { pa[i], pa[j] = pa[j], pa[i] })
+		}
+		if fa == nil {
+			fa = []interface{}{}
+		}
+		p, f = pa, fa
+	} else {
+		pm, fm := map[string]interface{}{}, map[string]interface{}{}
+		for n := g.intn(3); n > 0; n-- {
+			k := g.pick(vocabKeys)
+			if _, have := pm[k]; have {
+				continue
+			}
+			e := sub()
+			pm[k] = e
+			fm[k] = g.instantiate(e, sigma, ctx, true)
+		}
+		pm["o"] = opt
+		if assigned {
+			x := g.value(2)
+			sigma[opt] = x
+			fm["o"] = x
+		}
+		if g.chance(0.5) {
+			fm["extra"] = g.scalar()
+		}
+		p, f = pm, fm
+	}
+	if g.chance(0.4) {
+		k := g.pick(vocabKeys)
+		p, f = map[string]interface{}{k: p}, map[string]interface{}{k: f, "zz": g.scalar()}
+	}
+	c.Kind = "planted-optional"
+	c.P, c.F, c.Bs = p, f, map[string]interface{}{}
+	c.Planted = map[string]interface{}{}
+	for k, v := range sigma {
+		if ctx.vars[k] || k == opt {
+			c.Planted[k] = v
+		}
+	}
 }
